@@ -15,6 +15,10 @@ PEDAL_DEVELOPERS = ["Austin Cory Bart <acbart@udel.edu>",
                     "Luke Gusukuma <lukesg08@vt.edu>"]
 
 
+#: Marks a field that a class did not define itself before it was overridden
+_NOT_OVERRIDDEN_HERE = object()
+
+
 class FeedbackRegistry:
     def __init__(self):
         self._registered_feedback = {}
@@ -469,19 +473,30 @@ class Feedback:
 
     @classmethod
     def override(cls, report=MAIN_REPORT, **fields):
-        if cls._override_backups is None:
-            cls._override_backups = {}
+        # Each class keeps its own backups: a subclass must not share (and later wipe)
+        # the dictionary it would otherwise inherit from an overridden base class.
+        backups = cls.__dict__.get('_override_backups')
+        if backups is None:
+            backups = cls._override_backups = {}
         for field, new_value in fields.items():
-            if field not in cls._override_backups:
-                cls._override_backups[field] = getattr(cls, field)
+            if field not in backups:
+                backups[field] = cls.__dict__.get(field, _NOT_OVERRIDDEN_HERE)
             setattr(cls, field, new_value)
         report.override_feedback(cls)
 
     @classmethod
     def _restore_overrides(cls):
-        for field, old_value in cls._override_backups.items():
-            setattr(cls, field, old_value)
-        cls._override_backups.clear()
+        backups = cls.__dict__.get('_override_backups')
+        if not backups:
+            return
+        for field, old_value in backups.items():
+            if old_value is _NOT_OVERRIDDEN_HERE:
+                # The attribute was inherited before the override: inherit it again
+                if field in cls.__dict__:
+                    delattr(cls, field)
+            else:
+                setattr(cls, field, old_value)
+        backups.clear()
 
 
     @classmethod
